@@ -9,6 +9,7 @@ for f in sorted(os.listdir(os.path.join(vdir, "sim"))):
     if f.endswith(".go"):
         rep[os.path.join(repo, "internal/verifsim", f)] = os.path.join(vdir, "sim", f)
 rep[os.path.join(repo, "cmd/gobl/zz_verif_shim_test.go")] = os.path.join(vdir, "shim/shim_test.go")
+rep[os.path.join(repo, "internal/verifroots/roots.go")] = os.path.join(vdir, "roots/roots.go")
 # generated package-level roots for the shared-state fingerprint
 rootsdir = os.path.join(bdir, "roots")
 if os.path.isdir(rootsdir):
